@@ -6,6 +6,7 @@
 //        defines/replaces a rule.  value=* : the value is key ++ "(" ++ input values joined by "," ++ ")".
 //        invalid=1 : is_result_valid answers false (the task re-runs in every build).
 //        force=1   : llb_buildengine_task_is_complete(..., force_change = true).
+//        an optional 9th field novalid=1 leaves llb_rule_t.is_result_valid NULL for this rule (optional callback).
 //        in: requested with llb_buildengine_task_needs_input (input_id = 7 + 3 * position);
 //        follow: llb_buildengine_task_must_follow; disc: llb_buildengine_task_discovered_dependency.
 //   ext <key> <value>          an external input: value taken from this table; valid iff the stored value equals it
@@ -32,6 +33,7 @@ struct RuleSpec {
   std::string fixedValue;
   bool alwaysInvalid = false;
   bool forceChange = false;
+  bool noValidCallback = false; // is_result_valid left NULL
   bool external = false;       // value from World::ext
 };
 
@@ -138,7 +140,7 @@ static void engine_lookup_rule(void* ctx, const llb_data_t* key, llb_rule_t* rul
   rule_out->context = e->ruleCtxs.back().get();
   rule_out->key = blob(it->second.key);
   rule_out->create_task = rule_create_task;
-  rule_out->is_result_valid = rule_is_result_valid;
+  rule_out->is_result_valid = it->second.noValidCallback ? nullptr : rule_is_result_valid;
   rule_out->update_status = nullptr;
 }
 
@@ -171,7 +173,7 @@ static void mode_run() {
   while (std::getline(std::cin, line)) {
     auto f = vh::split(line);
     std::string out = "bad-op";
-    if (f[0] == "rule" && f.size() == 8) {
+    if (f[0] == "rule" && (f.size() == 8 || (f.size() == 9 && field(f[8], "novalid") != "\x01"))) {
       RuleSpec s;
       s.key = vh::hexDecode(f[1]);
       s.inputs = vh::hexList(field(f[2], "in"));
@@ -182,6 +184,7 @@ static void mode_run() {
       if (!s.computedValue) s.fixedValue = vh::hexDecode(v);
       s.alwaysInvalid = field(f[6], "invalid") == "1";
       s.forceChange = field(f[7], "force") == "1";
+      s.noValidCallback = f.size() == 9 && field(f[8], "novalid") == "1";
       world.rules[s.key] = s;     // std::map nodes are stable: RuleCtx pointers of live engines stay valid
       out = "ok";
     } else if (f[0] == "ext" && f.size() == 3) {
